@@ -3,7 +3,9 @@ from .pdb import strip, walk, loc, ancestors
 from .terms import Ctx, num, show, lin_add, lin_sub, lin_mul
 from .common import (P, F, LEN, SIZE, GE, NE, effects, callee_path, call_args, in_macro, effective_guards, index_requirements, facts_x, ctor_summary,
                      is_push, same_dim, is_zero_term, container_stride, split_flat, strengthen)
-from .guards import for_range, facts, cond_atoms, norm_cmp, prove_lt, prove_ge0
+from .guards import facts, cond_atoms, norm_cmp, prove_lt, prove_ge0
+from .guards import for_range as raw_for_range
+from .common import for_range_total as for_range
 
 LEVEL = "other"
 M1 = "mesh1d::Mesh1D<T, X>"
@@ -302,7 +304,12 @@ def run(rep, pdb, tier):
             isvar = v is not None and any(f[0] == "cmp" and f[1] == "==" and {f[2], f[3]} == {("op", "%", i2, stride), lin_add(v, num(1))} for f in fs)
             slot = s_.target == ("idx", VARS, ("op", "/", i2, stride)) and s_.index == v
             tok = lambda e, ii: e.value[0] == "call" and str(e.value[1]).endswith("unwrap") and e.value[2][0] == "call" and str(e.value[2][1]).endswith("from_str") and e.value[2][2][0] == "idx" and e.value[2][2][2] == ii
-            okr = iscoord and isvar and slot and tok(p_, i) and tok(s_, i2) and rv is not None and rv[1:4] == (num(0), NV, False)
+            # the token list is the unfiltered whitespace split of the file contents
+            def toklist(e):
+                b = e.value[2][2][1]
+                return b[0] == "call" and str(b[1]).endswith("collect") and b[2][0] == "call" and str(b[2][1]).endswith("split_whitespace")
+            unfiltered = tok(p_, i) and tok(s_, i2) and toklist(p_) and toklist(s_) and p_.value[2][2][1] == s_.value[2][2][1] and ri_[2] == ("len", p_.value[2][2][1])
+            okr = iscoord and isvar and slot and unfiltered and rv is not None and rv[1:4] == (num(0), NV, False)
         rep.add("io-agreement", rule, bool(okw and okr), w["body"], "writer record = coordinate + nvars values: %s; reader stride nvars+1 with matching field order: %s" % (okw, okr), where=loc(w["body"]))
     rep.floor("flat-index/", 16)
     rep.floor("accessor-guards/", 9)
